@@ -234,7 +234,9 @@ def run(chk):
                        line=s.call.lineno, detail=f"{qual} writes the {f} factor of a blocked decomposition into a tensor but drops its label list {lab[f]}: "
                                                   f"the stored bond labels no longer describe the non-zero blocks")
     # ---- fresh labels
-    for rel, qual, upd, getter in ((GS, "single_sweep", "_update_mps", "_get_big_qn"), (MP, "MatrixProduct.variational_compress", "_update_mps", "_get_big_qn"),
+    from .chain_rules import single_sweep_rule
+    single_sweep_rule(chk, src, rule_fresh="fresh-labels")        # the ground-state sweep driver: abstract run with versioned events
+    for rel, qual, upd, getter in ((MP, "MatrixProduct.variational_compress", "_update_mps", "_get_big_qn"),
                                    (MPS, "Mps._evolve_tdvp_ps2", "_update_mps", "_get_big_qn")):
         fi = src.func(rel, qual)
         order = Q.stmts_in_order(fi.node)
